@@ -53,6 +53,160 @@ class C04(Check):
                           'non-trivial = calls whose arguments include at least one out-of-range or extreme value',
                      distinct_nontrivial=sum(1 for l in ls if re.search(r'-?2147483\d{3}|65536', l)), sanitizer_aborts=died,
                      samples=[dict(call=ls[i], impl=a[i]) for i in (1, len(ls) // 2, len(ls) - 1)])
-        return len(ls), viol[:200], stats
+        try:
+            hn, hv, hst = heap_search(self, ctx)
+        except core.BuildError as ex:
+            hn, hv, hst = 0, [dict(key='harness/c04heap.c', got=str(ex)[:400], expected='builds', what='heap harness does not build against the working tree')], {}
+        stats.update(hst)
+        stats['rule'] += '; plus call histories over the allocating APIs (parser, NIST / radionuclide lookups and lists, symbols, all 21 _CP functions and the 3 refractive-index entry points on valid, NIST, ' \
+                         'invalid and NULL compounds at energies on both sides of every table end, built-in crystal lookups/copies/lists, user crystal arrays with additions and file loads of ' \
+                         'well-formed / duplicate-name / truncated / garbage / empty / missing files, error objects) under ASan+UBSan with an allocation counter: balance 0 after the documented release'
+        return len(ls) + hn, (viol + hv)[:200], stats
+
+
+# ---------------------------------------------------------------------------------------------------------------
+# call histories over the allocating APIs, ending in full release (harness/c04heap.c)
+
+WRAP = ['-Wl,--wrap=malloc,--wrap=calloc,--wrap=realloc,--wrap=free,--wrap=strdup,--wrap=strndup,--wrap=vasprintf']
+
+def esc(b):
+    if b is None: return '%00NULL'
+    if isinstance(b, str): b = b.encode('latin1')
+    if not b: return '%'
+    return ''.join(chr(c) if (48 <= c <= 57 or 65 <= c <= 90 or 97 <= c <= 122 or c in (46, 40, 41)) else '%%%02X' % c for c in b)
+
+def crystal_entries(repo):
+    out = []; cur = None
+    for l in open(os.path.join(repo, 'data', 'Crystals.dat'), errors='replace'):
+        if l.startswith('#S '):
+            cur = [l]; out.append(cur)
+        elif l.startswith('#EOF'): cur = None
+        elif cur is not None: cur.append(l)
+    return [(e[0].split()[2], e) for e in out if len(e[0].split()) >= 3]
+
+def heap_groups(ctx, sc_dir):
+    """-> list of groups (each a list of op lines that must stay in one process, brackets closed)"""
+    from vlib.core import REPO, hx
+    r = ctx.rng; thorough = ctx.tier == 'thorough'
+    formulas = ['H2O', 'Ca5(PO4)3OH', 'C6H12O6', 'PuO2', 'Es2O3', 'EsCl3', 'Fm2O3', 'Fe4(Fe(CN)6)3', 'RfO2', 'Rf', 'UO2', 'SiO2', 'H', 'U', 'Lr', 'C22H10N2O5',
+                'Mg0.5Fe0.5O', '((((H2O))))', 'H2(SO4)0.5', 'NaCl', 'LaB6']
+    nist = ['Water, Liquid', 'Plutonium Dioxide', 'Ferroboride', 'Air, Dry (near sea level)', 'Gadolinium Oxysulfide', 'Kapton Polyimide Film', 'Bone, Cortical (ICRP)']
+    bad = ['', None, 'Uu', '(', ')', 'H2O)', '(H2O', 'h2o', 'H2O2.5.5', 'H-2', '2H', 'H2 O', 'Water', 'water, liquid', 'Si\xc3\xa9', 'A' * 300, 'H' * 2000, '(H)0', 'H0', 'He.', '.5H', 'H(', 'X', 'Hx', '0', 'O2' * 400]
+    comps = formulas + nist + bad
+    Es = [1e-4, 0.0005, 0.001, 0.0011, 0.05, 0.0999, 0.1, 1.0, 8.0, 99.0, 100.0, 799.0, 801.0, 999.9, 1000.0, 1000.1, 5000.0, 10000.0, 10000.1, 1e5, 0.0, -1.0]
+    rhos = [1.0, 2.33, 0.0, -1.0]
+    groups = []
+    one = lambda l: groups.append([l])
+    for c in comps: one('cp ' + esc(c))
+    for c in comps:
+        one('nistn ' + esc(c)); one('radn ' + esc(c)); one('s2z ' + esc(c)); one('cget ' + esc(c)); one('ccopy ' + esc(c))
+    for rn in ('55Fe', '57Co', '109Cd', '125I', '137Cs', '133Ba', '153Gd', '238Pu', '241Am', '244Cm', '60Co', 'fe55'): one('radn ' + esc(rn))
+    for i in list(range(-2, 183)): one('nisti %d' % i)
+    for i in list(range(-2, 13)): one('radi %d' % i)
+    for z in range(-2, 125): one('z2s %d' % z)
+    for _ in range(3): one('nistl'); one('radl'); one('clist')
+    for k in range(6): one('err %d' % k)
+    # compound cross sections and refractive indices: every function x compound x energies incl. both table ends
+    nE = len(Es) if thorough else 8
+    for c in comps:
+        for k in range(21):
+            for E in (Es if thorough else r.sample(Es, nE)):
+                one('cscp %d %s %s %s %s' % (k, esc(c), hx(E), hx(r.choice([0.0, 0.7, 3.14159, -1.0])), hx(r.choice([0.0, 1.0]))))
+        for k in range(3):
+            for E in Es:
+                one('ri %d %s %s %s' % (k, esc(c), hx(E), hx(r.choice(rhos))))
+    # crystal arrays: brackets ainit .. afree with additions, file loads (well-formed, duplicate names, name already present,
+    # truncated, garbage, empty, missing), lookups and listings
+    ents = crystal_entries(REPO)
+    names = [n for n, _ in ents]
+    os.makedirs(sc_dir, exist_ok=True)
+    def mkfile(tag, chunks):
+        p = os.path.join(sc_dir, tag + '.dat')
+        with open(p, 'w') as f: f.write(''.join(chunks))
+        return p
+    def entry(name, newname=None, drop=None):
+        e = list(dict(ents)[name])
+        if newname: e[0] = '#S 1 %s\n' % newname
+        if drop is not None: e = e[:drop]
+        return ''.join(e)
+    files = []
+    for i in range(6 if not thorough else 40):
+        a, b, c = r.sample(names, 3)
+        kind = i % 8
+        if kind == 0: files.append(mkfile('ok%d' % i, [entry(a, 'N%da' % i), entry(b, 'N%db' % i), '#EOF\n']))
+        elif kind == 1: files.append(mkfile('dup%d' % i, [entry(a, 'D%d' % i), entry(b, 'E%d' % i), entry(c, 'D%d' % i), '#EOF\n']))
+        elif kind == 2: files.append(mkfile('adj%d' % i, [entry(a, 'D%d' % i), entry(a, 'D%d' % i), '#EOF\n']))
+        elif kind == 3: files.append(mkfile('present%d' % i, [entry(a, 'Aaa%d' % i), entry(b, 'Pre'), '#EOF\n']))
+        elif kind == 4: files.append(mkfile('trunc%d' % i, [entry(a, 'T%da' % i), entry(b, 'T%db' % i, drop=r.randrange(1, 12))]))
+        elif kind == 5: files.append(mkfile('garb%d' % i, ['#S x y\n', 'garbage\n' * 5]))
+        elif kind == 6: files.append(mkfile('empty%d' % i, []))
+        else: files.append(mkfile('many%d' % i, [entry(r.choice(names), 'M%d_%d' % (i, j)) for j in range(25)] + ['#EOF\n']))
+    files.append(os.path.join(sc_dir, 'does-not-exist.dat'))
+    for h in range(12 if not thorough else 120):
+        g = ['ainit %d' % r.choice([0, 1, 2, 3, 9, 10, 11, 19, 20])]
+        for j in range(r.randrange(2, 30)):
+            k = r.random()
+            if k < 0.45: g.append('aadd %s %s' % (esc(r.choice(names)), esc(r.choice(['Pre', 'A%d' % r.randrange(40), r.choice(names)]))))
+            elif k < 0.7: g.append('aread ' + esc(r.choice(files)))
+            elif k < 0.85: g.append('aget ' + esc(r.choice(['Pre', 'A%d' % r.randrange(40), 'nope', r.choice(names)])))
+            else: g.append('alist')
+        g.append('afree')
+        groups.append(g)
+    return groups
+
+def run_heap(ctx, exe, groups):
+    """runs the groups in parallel worker processes; -> list of (group index, line index or None, answer lines, died?)"""
+    import subprocess, concurrent.futures
+    nw = 12
+    buckets = [[] for _ in range(nw)]
+    for i, g in enumerate(groups): buckets[i % nw].append(i)
+    env = dict(os.environ, ASAN_OPTIONS='detect_leaks=0:abort_on_error=0:exitcode=99', UBSAN_OPTIONS='halt_on_error=1:exitcode=99')
+    results = {}
+    def work(idxs):
+        todo = list(idxs)
+        while todo:
+            lines = [l for i in todo for l in groups[i]]
+            p = subprocess.run([exe], input='\n'.join(lines) + '\n', capture_output=True, text=True, errors='replace', env=env)
+            out = p.stdout.split('\n'); out = out[:-1] if out and out[-1] == '' else out
+            pos = 0; nxt = []
+            for n, i in enumerate(todo):
+                k = len(groups[i])
+                got = out[pos:pos + k]
+                if len(got) == k:
+                    results[i] = (got, None); pos += k
+                else:
+                    # the process died inside this group: record, then continue with the remaining groups in a fresh process
+                    results[i] = (got, (p.stderr or '')[-1500:] or 'exit %d' % p.returncode)
+                    nxt = todo[n + 1:]
+                    break
+            todo = nxt
+    with concurrent.futures.ThreadPoolExecutor(nw) as ex: list(ex.map(work, buckets))
+    return results
+
+def heap_search(check, ctx):
+    from vlib import cbuild
+    from vlib.core import REPO
+    exe = ctx.sc.path('c04heap')
+    cbuild.link(ctx.sc, ctx.objs, [os.path.join(VERIF, 'harness', 'c04heap.c')], exe, ctx.cfl + ['-I' + os.path.join(REPO, 'src')] + WRAP)
+    groups = heap_groups(ctx, ctx.sc.path('c04files'))
+    res = run_heap(ctx, exe, groups)
+    viol = []; nops = 0; kinds = {}; nfail = 0
+    for i, g in enumerate(groups):
+        got, died = res.get(i, ([], 'not run'))
+        for l, a in zip(g, got):
+            nops += 1; kinds[l.split(' ')[0]] = kinds.get(l.split(' ')[0], 0) + 1
+            m = re.match(r'(-?\d+) d=(open|-?\d+) e=(\d)', a)
+            if not m:
+                viol.append(dict(key=' ; '.join(g) if len(g) > 1 else l, got=a, expected='an answer', what='heap harness: malformed answer')); continue
+            if m.group(3) == '1': nfail += 1
+            if m.group(2) not in ('open', '0'):
+                viol.append(dict(key=' ; '.join(g) if len(g) > 1 else l, got=a, expected='d=0: no block allocated on behalf of the finished call(s) is still held after release',
+                                 what='memory still held after the documented release (%s blocks), %s path' % (m.group(2), 'failure' if m.group(3) == '1' else 'success')))
+        if died is not None:
+            at = g[len(got)] if len(got) < len(g) else g[-1]
+            first = re.search(r'(ERROR: AddressSanitizer: [^\n]*|runtime error: [^\n]*|double free[^\n]*|SUMMARY: [^\n]*)', died)
+            viol.append(dict(key=' ; '.join(g[:len(got) + 1]) if len(g) > 1 else at, got=(first.group(1) if first else died[-300:]), expected='no undefined access',
+                             what='sanitizer abort / crash in the real library during a call history over the allocating API (at: %s)' % at))
+    return nops, viol, dict(heap_ops=nops, heap_groups=len(groups), heap_op_kinds=kinds, heap_failure_paths=nfail)
 
 CHECK = C04()
